@@ -105,6 +105,7 @@ class FakeNet:
         self.peer_factory = peer_factory
         self.connections = []
         self.attempts = []
+        self.connect_delay = 0
         self.attempt_threads = []     # name of the thread making each attempt
         self.socket = types.SimpleNamespace(**{k: getattr(_socket, k) for k in dir(_socket) if not k.startswith('__')})
         self.socket.create_connection = self.create_connection
@@ -114,6 +115,8 @@ class FakeNet:
         s = dsched.sched()
         if s:
             s.yield_point('sock.connect')
+            if self.connect_delay:
+                dsched.v_sleep(self.connect_delay)     # establishing a connection takes a moment
         self.attempts.append((s.now if s else None, addr))
         self.attempt_threads.append(getattr(s.cur, 'name', '?') if s else '?')
         peer = self.peer_factory(addr, len(self.attempts) - 1)
